@@ -114,3 +114,67 @@ static void decoder_on_arbitrary_stream(bool fm)
 }
 extern "C" void h_fm_short_stream(void) { decoder_on_arbitrary_stream(true); }
 extern "C" void h_mfm_short_stream(void) { decoder_on_arbitrary_stream(false); }
+
+// ---------------------------------------------------------------- C06/C05: one FM sector, symbolic damage
+// A concrete IBM-3740 FM track skeleton (gap, sync, ID field, gap, sync, data field) holding one
+// 128-byte sector whose address bytes, two payload bytes, data mark (normal / deleted) and the error
+// added to each CRC are symbolic.  The real decode_fm_track (with all its real callees) must yield
+// the sector exactly when nothing was damaged, with exactly the recorded address and bytes.
+namespace {
+struct FmWriter
+{
+  std::vector<byte> raw; size_t cell = 0;
+  explicit FmWriter(size_t ncells) : raw((2 * ncells + 7) / 8) {}
+  void put_cell(bool v) { const size_t bit = 2 * cell + 1; if (v) raw[bit / 8] = static_cast<byte>(raw[bit / 8] | (1u << (bit % 8))); ++cell; }
+  void put(byte data, byte clock = 0xFF) { for (int i = 7; i >= 0; --i) { put_cell((clock >> i) & 1); put_cell((data >> i) & 1); } }
+};
+unsigned crc_over(unsigned crc, const byte *p, size_t n) { for (size_t i = 0; i < n; ++i) crc = ref_crc_byte(crc, p[i]); return crc; }
+}
+extern "C" void h_fm_one_sector(void)
+{
+  constexpr unsigned SZ = 128;
+  const byte C = vf_nondet_u8(), H = vf_nondet_u8(), R = vf_nondet_u8();
+  const bool deleted = vf_nondet_u8() & 1;
+  const unsigned id_err = vf_nondet_u16(), data_err = vf_nondet_u16();
+  const unsigned k = vf_nondet_u8() % SZ;
+  const byte vk = vf_nondet_u8(), v0 = vf_nondet_u8();
+  byte payload[SZ];
+  for (unsigned i = 0; i < SZ; ++i) payload[i] = static_cast<byte>(0xE5 ^ i);
+  payload[0] = v0; payload[k] = vk;
+  const byte idf[5] = { 0xFE, C, H, R, 0 };
+  const unsigned idcrc = crc_over(0xFFFF, idf, 5) ^ id_err;
+  const byte mark = deleted ? 0xF8 : 0xFB;
+  unsigned dcrc = ref_crc_byte(0xFFFF, mark);
+  dcrc = crc_over(dcrc, payload, SZ) ^ data_err;
+
+  FmWriter w(16 * (4 + 6 + 7 + 11 + 6 + 1 + SZ + 2 + 6));
+  for (int i = 0; i < 4; ++i) w.put(0xFF);
+  for (int i = 0; i < 6; ++i) w.put(0x00);
+  w.put(0xFE, 0xC7); w.put(C); w.put(H); w.put(R); w.put(0);
+  w.put(static_cast<byte>(idcrc >> 8)); w.put(static_cast<byte>(idcrc));
+  for (int i = 0; i < 11; ++i) w.put(0xFF);
+  for (int i = 0; i < 6; ++i) w.put(0x00);
+  w.put(mark, 0xC7);
+  for (unsigned i = 0; i < SZ; ++i) w.put(payload[i]);
+  w.put(static_cast<byte>(dcrc >> 8)); w.put(static_cast<byte>(dcrc));
+  for (int i = 0; i < 6; ++i) w.put(0xFF);
+
+  Track::BitStream bits(w.raw, 1, 2);
+  std::vector<Track::Sector> got = Track::decode_fm_track(bits, false);
+  const bool intact = id_err == 0 && data_err == 0 && !deleted;
+  if (intact)
+    {
+      vf_assert(got.size() == 1, "an undamaged sector is yielded exactly once");
+      if (got.size() == 1)
+        {
+          vf_assert(got[0].address.cylinder == C && got[0].address.head == H && got[0].address.record == R, "with the address recorded in its ID field");
+          vf_assert(got[0].data.size() == SZ && got[0].data[k] == vk && got[0].data[0] == v0, "and exactly the recorded bytes");
+        }
+    }
+  else
+    vf_assert(got.empty(), "a sector whose ID or data CRC does not check, or whose mark is deleted-data, is dropped");
+  vf_observe(got.size());
+  if (intact) vf_witness("undamaged sector");
+  if (!intact && data_err != 0 && id_err == 0 && !deleted) vf_witness("data field damaged only");
+  if (deleted && id_err == 0 && data_err == 0) vf_witness("deleted-data record with good CRCs");
+}
